@@ -170,6 +170,26 @@ func (h *History) OfferTxs(b int) {
 						to := w.Addrs[j]
 						h.try(j, fmt.Sprint("activate", b), &types.Transaction{Type: types.ActivationTx, To: &to, Payload: crypto.FromECDSAPub(&w.Keys[j].PublicKey)})
 					}
+				case state.Candidate:
+					// a candidate as a pool: a validated identity delegates to it, the pool goes online, and now and then the
+					// candidate's inviter terminates it (KillInviteeTx) while it is an online pool
+					to := w.Addrs[j]
+					id := A.App.State.GetIdentity(to)
+					switch {
+					case !A.App.ValidatorsCache.IsPool(to) && r.Intn(6) == 0:
+						for d := 1; d < len(w.Keys); d++ {
+							if d != j && !h.O.Always[d] && A.App.ValidatorsCache.IsValidated(w.Addrs[d]) && A.App.State.Delegatee(w.Addrs[d]) == nil && r.Intn(3) == 0 {
+								h.try(d, fmt.Sprint("delegate-to-candidate", j, b), &types.Transaction{Type: types.DelegateTx, To: &to})
+								break
+							}
+						}
+					case A.App.ValidatorsCache.IsPool(to) && !A.App.ValidatorsCache.IsOnlineIdentity(to) && !h.O.NoOnline && r.Intn(3) == 0:
+						h.try(j, fmt.Sprint("pool-online", b), OnlineTx(true))
+					case A.App.ValidatorsCache.IsPool(to) && A.App.ValidatorsCache.IsOnlineIdentity(to) && id.Inviter != nil && r.Intn(5) == 0:
+						if inv := w.Index(id.Inviter.Address); inv >= 0 {
+							h.try(inv, fmt.Sprint("kill-online-pool-candidate", j, b), &types.Transaction{Type: types.KillInviteeTx, To: &to})
+						}
+					}
 				}
 			}
 		}
@@ -384,8 +404,10 @@ func Bootstrap(w *World, o HistoryOpts, r *rand.Rand, attachCeremony bool) (*His
 		return nil, err
 	}
 	h := NewHistory(w, n, r, o)
-	if _, err := h.S.Send(n, 0, OnlineTx(true)); err != nil {
-		return nil, fmt.Errorf("god online tx: %w", err)
+	if !o.NoOnline {
+		if _, err := h.S.Send(n, 0, OnlineTx(true)); err != nil {
+			return nil, fmt.Errorf("god online tx: %w", err)
+		}
 	}
 	return h, nil
 }
